@@ -57,11 +57,15 @@ class C16(SCheck):
             if dstate in ("empty", "populated"):
                 dest = r.choice(["dst/keep", "newname"]) if dstate == "populated" else "newname"
             srcs = valid[:r.randrange(2, 5)]
+            if r.random() < 0.35:
+                # one pattern that expands to several paths
+                flags["glob"] = True
+                srcs = [r.choice(["f?", "f*", "[fd]?"])]
         elif cls == "dir-onto-file":
             srcs = [r.choice(["a", "d2"])]
             dest = "f1"
         elif cls == "same":
-            which = r.choice(["file", "dir", "target", "dot-slash", "dotdot"])
+            which = r.choice(["file", "dir", "target", "dot-slash", "dotdot", "hardlink", "symlink", "hardlink-in-dir"])
             if r.random() < 0.5:
                 flags["backup"] = r.choice(["numbered", "auto"])
                 if flags["backup"] == "auto":
@@ -74,6 +78,16 @@ class C16(SCheck):
                 srcs, dest = ["f1"], "a/../f1"
             elif which == "dir":
                 srcs, dest = ["a"], "a"
+            elif which == "hardlink":
+                ops.append({"op": "hardlink", "p": "f1.hard", "to": "f1"})
+                srcs, dest = (["f1"], "f1.hard") if r.random() < 0.5 else (["f1.hard"], "f1")
+            elif which == "symlink":
+                ops.append(gen.l_op("f1.sym", r.choice(["f1", "$ROOT/f1", "a/../f1"])))
+                srcs, dest = ["f1"], "f1.sym"
+            elif which == "hardlink-in-dir":
+                ops.append(gen.d_op("hd"))
+                ops.append({"op": "hardlink", "p": "hd/f2", "to": "f2"})
+                srcs, dest = ["f2"], r.choice(["hd", "hd/"])
             else:
                 # the mapped target dest/<name> is the source itself
                 srcs, dest = ["dst/keep" if dstate == "populated" else "a/x"], ("dst" if dstate == "populated" else "a")
